@@ -77,7 +77,7 @@ Each is a realistic, NON-TRIVIAL refactoring (20-90 changed lines) of the functi
 6. generics: one generic helper replacing two or more near-duplicate functions (set operations, min/max selection, per-element conversion loops);
 7. moving checks between caller and callee: validation hoisted into a shared `validateXxx` helper returning `(parsed, error)` or `(value, ok)`, or pushed down into the constructor/parser, early returns replaced by nested conditionals or vice versa, recursion replaced by an explicit stack/loop or vice versa;
 8. data representation of intermediates: strings vs parsed integers, `[N]int64` arrays vs named fields, maps keyed by structs vs by strings, sets as `map[T]struct{{}}` vs sorted slices + `slices.Compact`, pre-sized slices filled by index and trimmed to the fill count.
-Do not touch exported signatures. The property must hold exactly as before and the existing suite must pass.
+Feel free to COMBINE two families in one change where that is natural (for example a value type whose methods use a table and return sentinel errors; an iterator closure feeding a generic helper), and to restructure across function boundaries (split one function into three, or inline helpers). Do not touch exported signatures. The property must hold exactly as before and the existing suite must pass.
 
 """ + brief[b:]
         brief = brief.replace("For each k in {m1, m2, r1, r2, r3}", "For each k in {r1, r2, r3, r4, r5}")
